@@ -247,16 +247,29 @@ func objectItemPrefixBasedEditRange(remainingRange hcl.Range, fileBytes []byte, 
 		Start: hcl.Pos{
 			// TODO: Calculate Line+Column for multi-line keys?
 			Line:   remainingRange.Start.Line,
-			Column: remainingRange.Start.Column - len(rawPrefixBytes),
+			Column: remainingRange.Start.Column - columnsInBytes(rawPrefixBytes),
 			Byte:   remainingRange.Start.Byte - len(rawPrefixBytes),
 		},
 		End: hcl.Pos{
 			// TODO: Calculate Line+Column for multi-line values?
 			Line:   remainingRange.Start.Line,
-			Column: remainingRange.Start.Column + trimmedOffset,
+			Column: remainingRange.Start.Column + columnsInBytes(trimmedRightBytes),
 			Byte:   remainingRange.Start.Byte + trimmedOffset,
 		},
 	}
+}
+
+// columnsInBytes returns the number of columns the given (single-line) bytes
+// occupy. HCL counts columns in grapheme clusters, not in bytes, so the two
+// differ for any multi-byte character.
+func columnsInBytes(b []byte) int {
+	sc := hcl.NewRangeScanner(b, "", func(data []byte, atEOF bool) (int, []byte, error) {
+		return len(data), data, nil
+	})
+	if !sc.Scan() {
+		return 0
+	}
+	return sc.Range().End.Column - sc.Range().Start.Column
 }
 
 func objectAttributesToCandidates(ctx context.Context, prefix string, attrs schema.ObjectAttributes, declared declaredAttributes, editRange hcl.Range) []lang.Candidate {
